@@ -230,3 +230,67 @@ Definition seg_expr (fr : frame) (s : seg) : expr :=
    given C04's meaning gsem_avc) *)
 Definition seg_pattern (en : env) (fr : frame) (s : seg) : bool :=
   holds gsem_avc en (seg_expr fr s).
+
+(* ------------------------------------------------------------------------ *)
+(* vocabulary for the auxiliary graph (used by the proofs) and an executable
+   form of the specification (used to validate it against the harness oracle;
+   CrossableDecide.v proves it equivalent to crossable_spec) *)
+
+(* NP k p : the k-th copy (0 plain, 1 horizontal pass, 2 vertical pass) of the
+   lattice point p;  NS s : the node of segment s *)
+Inductive node := NP (k : nat) (p : nat * nat) | NS (s : seg).
+
+Definition dirk (s : seg) : nat := match s with Seg true _ _ => 2 | Seg false _ _ => 1 end.
+
+Definition node_in (h w : nat) (a : node) : Prop :=
+  match a with
+  | NP k (y, x) => k < 3 /\ y <= h /\ x <= w
+  | NS s => seg_in h w s = true
+  end.
+
+Definition enc (h w : nat) (a : node) : nat :=
+  match a with
+  | NP k (y, x) => (y * (w + 1) + x) * 3 + k
+  | NS (Seg true y x) => (h + 1) * (w + 1) * 3 + y * (w + 1) + x
+  | NS (Seg false y x) => (h + 1) * (w + 1) * 3 + h * (w + 1) + y * w + x
+  end.
+
+Definition dec (h w : nat) (u : nat) : node :=
+  let n3 := (h + 1) * (w + 1) * 3 in
+  if Nat.ltb u n3 then NP (u mod 3) ((u / 3) / (w + 1), (u / 3) mod (w + 1))
+  else if Nat.ltb u (n3 + h * (w + 1))
+       then NS (Seg true ((u - n3) / (w + 1)) ((u - n3) mod (w + 1)))
+       else NS (Seg false ((u - n3 - h * (w + 1)) / w) ((u - n3 - h * (w + 1)) mod w)).
+
+(* which nodes the code activates, in terms of the pattern only *)
+Definition nact (h w : nat) (act : seg -> bool) (a : node) : bool :=
+  match a with
+  | NP 0 p => Nat.ltb 0 (deg h w act p) && negb (Nat.eqb (deg h w act p) 4)
+  | NP _ p => Nat.eqb (deg h w act p) 4
+  | NS s => act s
+  end.
+
+Definition degree_ok_b (h w : nat) (act : seg -> bool) (sc : bool) (p : nat * nat) : bool :=
+  let d := deg h w act p in
+  (Nat.eqb d 0 || (negb sc && Nat.eqb d 1) || Nat.eqb d 2 || Nat.eqb d 4) &&
+  (negb (Nat.eqb d 4) ||
+   (Nat.ltb 0 (fst p) && Nat.ltb (fst p) h && Nat.ltb 0 (snd p) && Nat.ltb (snd p) w)).
+
+Definition degree_rule_b (h w : nat) (act : seg -> bool) (sc : bool) : bool :=
+  forallb (degree_ok_b h w act sc) (list_prod (seq 0 (h + 1)) (seq 0 (w + 1))).
+
+Definition crossable_spec_b (h w : nat) (act : seg -> bool) (sc : bool) : bool :=
+  degree_rule_b h w act sc &&
+  connected_b (split_graph (h + 1) (w + 1)) (fun u => nact h w act (dec h w u)).
+
+(* a pattern given by the two bit arrays of a frame *)
+Definition act_of_bits (w : nat) (hbits vbits : list bool) (s : seg) : bool :=
+  match s with
+  | Seg true y x => nth (y * (w + 1) + x) vbits false
+  | Seg false y x => nth (y * w + x) hbits false
+  end.
+
+(* the values of the two returned arrays, row-major over the lattice points *)
+Definition outputs_b (h w : nat) (act : seg -> bool) : list bool * list bool :=
+  (map (visited h w act) (list_prod (seq 0 (h + 1)) (seq 0 (w + 1))),
+   map (crossing h w act) (list_prod (seq 0 (h + 1)) (seq 0 (w + 1)))).
